@@ -99,31 +99,24 @@ def evaluate(pool, runs):
 
 
 def judge_any_order(pool, run_, rec, oracle, rec_noout=None):
-    """judge(); a mismatch in a scenario with glob arguments is re-judged against the enumeration order returned by the
-    simulated directory and then against every combination of member permutations (<= 48): files of one pattern may
-    be concatenated in ANY order, so an alarm needs every order to disagree."""
+    """judge(); a mismatch in a scenario with glob arguments is re-judged against other legal concatenation orders
+    (name-sorted, reverse, construction order, and every combination of permutations if there are <= 48): files of one
+    pattern may be concatenated in ANY order, so an alarm needs every order to disagree.  If the orders cannot be
+    enumerated exhaustively and none of the tried ones agrees, the scenario is not judged."""
+    from ..scenario import alternative_orders
     v = judge(run_, rec, oracle, rec_noout)
-    sc = run_["scenario"]
-    globs = [a for a in sc["args"] if a.get("glob")]
-    if v is None or not globs:
+    if v is None:
         return v, False
-    cands = []
-    if len(rec["glob_calls"]) == len(globs) and all(sorted(g) == list(range(len(a["members"]))) for g, a in zip(rec["glob_calls"], globs)):
-        cands.append([list(g) for g in rec["glob_calls"]])
-    total = 1
-    for a in globs:
-        f = 1
-        for k in range(2, len(a["members"]) + 1):
-            f *= k
-        total *= f
-    if total <= 48:
-        cands += [list(map(list, combo)) for combo in itertools.product(*[itertools.permutations(range(len(a["members"]))) for a in globs])]
-    if not cands:
-        return None, True  # too many orders to enumerate: not judged
-    res = [unwrap(x) for x in pool.map("scenario:job_oracle", [{"scenario": sc, "glob_perms": c} for c in cands], timeout=90)]
+    sc = run_["scenario"]
+    alt = alternative_orders(sc, rec)
+    if alt is None:
+        return v, False
+    res = [unwrap(x) for x in pool.map("scenario:job_oracle", [{"scenario": sc, "glob_perms": c} for c in alt["perms"]], timeout=90)]
     for o in res:
         if judge(run_, rec, o, rec_noout) is None:
             return None, True
+    if not alt["exhaustive"]:
+        return None, True  # too many orders to enumerate: not judged
     return v, False
 
 
